@@ -143,6 +143,7 @@ class Interp:
         self.const_axioms = {}
         self.auto_stub = None
         self.domain_events = []
+        self.unknown_feasibility = 0     # branches kept only because the solver could not decide them (results built on them are not verdicts)
         self.nonfinite_unknown = False   # True: std::isfinite / allFinite / hasNaN are undetermined (both outcomes explored)
         self.loop_contracts = {}      # (function qualified name, ordinal of the while loop in the function) -> LoopContract
         self._loop_ordinals = {}
@@ -252,6 +253,12 @@ class Interp:
         s.add(c)
         t0 = time.time()
         r = s.check()
+        if r == z3.unknown:
+            # a wall-clock timeout on a loaded machine is not an answer: ask again with a long budget before treating the branch as feasible
+            s.set('timeout', 30000)
+            r = s.check()
+            if r == z3.unknown:
+                self.unknown_feasibility += 1
         self.solver_time += time.time() - t0
         return r != z3.unsat
 
@@ -362,7 +369,9 @@ class Interp:
         if self.mode == 'float':
             try:
                 return pyf(float(x))
-            except (ValueError, OverflowError):
+            except OverflowError:
+                return math.inf          # IEEE: the result overflows to +inf (exp, cosh, ...): Python raises instead
+            except ValueError:
                 self.domain_events.append(('%s: argument in domain at %s:%d' % (name, self.cur_file(), self.cur_line), float(x)))
                 return math.nan
         t = z3.simplify(z3real(x))
@@ -430,7 +439,17 @@ class Interp:
         if self.mode == 'float':
             try:
                 return math.pow(float(x), float(y))
-            except (ValueError, OverflowError):
+            except OverflowError:
+                # IEEE pow overflows to +-inf where Python raises (sign: negative base with an odd integer exponent)
+                xf, yf_ = float(x), float(y)
+                neg = xf < 0 and yf_ == int(yf_) and int(yf_) % 2 == 1
+                return -math.inf if neg else math.inf
+            except ValueError:
+                xf, yf_ = float(x), float(y)
+                if xf == 0 and yf_ < 0:
+                    # IEEE: pow(+-0, y < 0) is +inf (-inf for -0 and an odd integer y); Python raises "math domain error"
+                    odd = yf_ == int(yf_) and int(yf_) % 2 == 1
+                    return -math.inf if (odd and math.copysign(1.0, xf) < 0) else math.inf
                 return math.nan
         if not is_sym(y):
             yf = Fraction(y)
@@ -1716,7 +1735,8 @@ class Interp:
                 else:
                     eqv = (l == r)
                 return eqv if op == '==' else (not eqv)
-            if l is None or r is None or isinstance(l, Obj) or isinstance(r, Obj):
+            if l is None or r is None or isinstance(l, (Obj, Cell, FieldCell)) or isinstance(r, (Obj, Cell, FieldCell)):
+                # pointer comparison: an object / a cell is a non-null pointer; two pointers are equal iff they designate the same thing
                 if op == '==':
                     return l is r or (l in (None, 0) and r in (None, 0))
                 if op == '!=':
